@@ -178,6 +178,12 @@ static void sw_build_domains(void) {
       memset(longn, 'A', 700); longn[0] = 'Q'; longn[700] = 0;
       for (k = 0; k < 30; k++) hi[k] = (char)(0x80 + 4 * k); hi[30] = 0;
       sw_STR[sw_nSTR++] = longf; sw_STR[sw_nSTR++] = longn; sw_STR[sw_nSTR++] = hi; }
+    { /* deeply nested groups: 17, 33, 100 and 1000 bracket pairs around H2O (valid formulas; whatever bound an implementation may have, refusing
+       * them is a failure that has to be reported), and one unbalanced deep one */
+      static const int depth[] = { 17, 33, 100, 1000 }; int d_;
+      for (d_ = 0; d_ < 4; d_++) { int n_ = depth[d_], j_; char *b_ = malloc(2 * n_ + 3 * n_ + 16), *q_ = b_;
+        for (j_ = 0; j_ < n_; j_++) *q_++ = '('; q_ += sprintf(q_, "H2O"); for (j_ = 0; j_ < n_; j_++) { *q_++ = ')'; if (j_ % 5 == 4) *q_++ = '2'; } *q_ = 0; sw_STR[sw_nSTR++] = b_; }
+      { char *b_ = malloc(80), *q_ = b_; int j_; for (j_ = 0; j_ < 20; j_++) *q_++ = '('; q_ += sprintf(q_, "SiO2"); for (j_ = 0; j_ < 19; j_++) *q_++ = ')'; *q_ = 0; sw_STR[sw_nSTR++] = b_; } }
     for (k = 0; k < 160 && sw_nSTR < 390; k++) { buf[0] = 0; if (k % 2) xv_gen_formula(&rg, buf, sizeof buf - 8, 0); else xv_hostile(&rg, buf, sizeof buf - 8); sw_STR[sw_nSTR++] = strdup(buf); } }
 }
 
